@@ -671,6 +671,9 @@ func (g *gen) guard(holds bool) string {
 
 func (g *gen) badLine(depth int) gline {
 	s := g.st
+	if g.fl.mainCmd && depth == 0 && g.chance(45) { // the Main-command lane (lanes.go)
+		return g.execMainLine(false)
+	}
 	// an outstanding background command that ended against its line: `wait` is the line that reports it
 	if depth == 0 && g.chance(50) {
 		if _, fatal, _, _ := s.waitAll(false); fatal {
@@ -862,11 +865,27 @@ var archBodies = []string{"hello\n", "hello\n", "alpha beta\ngamma\n", "", "x\n"
 // case travels hex-encoded to the model driver; the thorough tier lowers the share, not the count).
 var longLinePerMille = 50
 
-func genC01(rng *rand.Rand) *tcase {
+// genOpts: variations of the C01 generator used by the oracle-only lanes (lanes.go).
+type genOpts struct {
+	fl      *flags // use these Params instead of drawing them
+	mainCmd bool   // lean towards uses of `vmain`, the command registered through testscript.Main
+	short   bool   // no line of 64 KiB or more
+}
+
+func genC01(rng *rand.Rand) *tcase { return genC01opt(rng, genOpts{}) }
+
+func genC01opt(rng *rand.Rand, o genOpts) *tcase {
 	g := &gen{rng: rng, st: newGst()}
 	g.fl = flags{cont: g.chance(50), explicitExec: g.chance(20), unique: g.chance(20), customCmds: g.chance(65), customCond: g.chance(50)}
 	if g.chance(30) { // builtin-only: also goes through the cmd/testscript binary
 		g.fl = flags{cont: g.chance(50)}
+	}
+	if o.fl != nil {
+		g.fl = *o.fl
+	}
+	if o.mainCmd {
+		g.fl.mainCmd = true
+		g.fl.explicitExec = g.chance(55)
 	}
 	s := g.st
 	var tags []string
@@ -898,9 +917,12 @@ func genC01(rng *rand.Rand) *tcase {
 	failing := g.chance(50)
 	k := 1 + g.rng.Intn(n)
 	g.bgMode = g.chance(45)
+	if o.mainCmd {
+		g.bgMode = true
+	}
 	// a very long line (around bufio.Scanner's 64 KiB token limit), mostly with a failing line after it
 	longAt, longLen := 0, 0
-	if g.rng.Intn(1000) < longLinePerMille {
+	if g.rng.Intn(1000) < longLinePerMille && !o.short {
 		if n < 3 {
 			n = 3 + g.rng.Intn(6)
 		}
@@ -978,7 +1000,7 @@ func genC01(rng *rand.Rand) *tcase {
 			l.text = g.pick([]string{" ", "\t", "  "}) + l.text + g.pick([]string{" ", "\t", "\r", " \r"})
 		}
 		lines = append(lines, l.text)
-		if l.custom || strings.Contains(l.tag, "guard") || strings.Contains(l.tag, "neg") || strings.Contains(l.tag, "exec") || strings.Contains(l.tag, "-bg") || bad {
+		if l.custom || strings.Contains(l.tag, "guard") || strings.Contains(l.tag, "neg") || strings.Contains(l.tag, "exec") || strings.Contains(l.tag, "-bg") || strings.Contains(l.tag, "main-") || bad {
 			nontrivial = true
 		}
 		if !alive {
@@ -1120,6 +1142,9 @@ func genC01(rng *rand.Rand) *tcase {
 	}
 	if g.fl.cont {
 		tags = append(tags, "continue-on-error")
+	}
+	if g.fl.mainCmd {
+		tags = append(tags, "main-cmd-lane")
 	}
 	if nontrivial {
 		tags = append([]string{"nontrivial"}, tags...)
